@@ -259,11 +259,23 @@ def run_both(mode, lines, tag, chunk=20000):
     return impl, drv, problems
 
 
-def res_equal(impl, want):
-    """`want` may be `err *` (= any error kind: the documentation names no kind)."""
+def res_equal(impl, want, req=None):
+    """`want` may be `err *` (= any error kind: the documentation names no kind).
+    Traversals that follow links: siblings are ordered by the name of the FOLLOWED path, two siblings
+    can then have the same name and their relative order (with everything below them) is arbitrary:
+    compared as multisets when such a tie exists."""
     if want == 'err *':
         return impl.startswith('err ')
-    return impl == want
+    if impl == want:
+        return True
+    if req and req.startswith('entries ') and impl.startswith('ok t:') and want.startswith('ok t:'):
+        a = req.split(' ')
+        if len(a) > 5 and a[5] == '1':
+            li, lw = impl[5:].split(','), want[5:].split(',')
+            if sorted(li) == sorted(lw):
+                base = [x.rsplit('2f', 1)[-1] for x in lw if not x.startswith('E')]
+                return len(set(base)) < len(base)
+    return False
 
 
 # ---------------------------------------------------------------------------------------------
@@ -695,7 +707,8 @@ def _copy_into_itself(req, impl):
                     p = p[len(pr):]
             return posixpath.normpath(posixpath.join(cwd, p)).replace('//', '/')
         s_, d_ = ab(src), ab(dst)
-        return d_ == s_ or s_ == '/' or d_.startswith(s_ + '/')
+        # either direction: into its own subtree, or into a directory above it (the copy lands on the source itself)
+        return d_ == s_ or s_ == '/' or d_ == '/' or d_.startswith(s_ + '/') or s_.startswith(d_ + '/')
     except Exception:
         return False
 
@@ -713,7 +726,7 @@ def _only_link_kinds_differ(a, b):
 UNORDERED_OPS = ('entries', 'chown_b', 'chown', 'copy_b', 'copy', 'chmod_b', 'chmod', 'mkfile_m')
 
 
-def cmp_line(req, impl, model):
+def cmp_line(req, impl, model, cls=None):
     """'agree' | 'dead' (agree, but the rest of the history is meaningless) | 'mismatch'"""
     if req.startswith('assert ') and '|nopath' in impl:
         impl = impl.replace('|nopath', '', 1)      # judged separately (message must name the path)
@@ -740,6 +753,8 @@ def cmp_line(req, impl, model):
         return 'dead'
     if op in ('copy', 'copy_b') and io == mo and io.startswith('ok') and _only_link_kinds_differ(impl, model):
         return 'dead'    # a copied link gets its kind from whether its target exists at that moment: order-dependent when the target is created by the same copy
+    if op in ('copy', 'copy_b') and cls == 'copy_overlap':
+        return 'dead'    # source and destination overlap (decided by the driver on the resolved keys): order-dependent, also in which error comes first
     if op in ('copy', 'copy_b') and io == mo and _copy_into_itself(req, impl):
         return 'dead'    # copying a directory into its own subtree reads entries the same call creates: the result depends on the iteration order
     if op == 'move_p' and 'hang' in (io, mo) and all(x == 'hang' or x == 'crash' or x.startswith('err') for x in (io, mo)):
@@ -883,7 +898,7 @@ def analyse_sessions(spec, hists, open_known, tag):
             xo = x.split(' ## ')[0]
             key = xo.split(' ')[0] + (' ' + xo.split(' ')[1] if xo.startswith('err') and ' ' in xo else '')
             hist[key] = hist.get(key, 0) + 1
-            c = cmp_line(req, x, model)
+            c = cmp_line(req, x, model, f[2] if len(f) > 2 else None)
             if c == 'mismatch':
                 # the model no longer describes the implementation here: evaluate the property itself on
                 # the implementation's result (the spec column was computed from the agreed pre-state)
